@@ -67,6 +67,12 @@ func (s *Seq) Read(b []byte) (int, error) {
 	if len(b) == 0 {
 		return 0, nil
 	}
+	if s.cur >= s.end {
+		return 0, io.EOF
+	}
+	if s.BasesPerLine <= 0 || s.BytesPerLine < s.BasesPerLine {
+		return 0, errors.New("fai: invalid line layout in index record")
+	}
 	var n int
 	end := int(s.Record.position(s.end))
 	for s.cur < s.end {
